@@ -96,6 +96,15 @@ def stepper_source(cls, arr):
     return L
 
 
+def stepper_class(M, ai):
+    """arrays whose steppers have the same methods share ONE class and get
+    instances constructed with different parameters (k)"""
+    sig = json.dumps(M['arrs'][ai]['meth'], sort_keys=True)
+    for aj, arr in enumerate(M['arrs']):
+        if json.dumps(arr['meth'], sort_keys=True) == sig:
+            return 'Step%s' % arr['name'].upper()
+
+
 def equation_source(i, log):
     L = ['class Acc%s%d(Equation):' % ('Log' if log else '', i)]
     if log:
@@ -125,8 +134,12 @@ def gen_source(M, mutate):
          'from pysph.sph.equation import Equation', '',
          'REC = None', '']
     if not M.get('stepper'):
+        done = set()
         for ai, arr in enumerate(M['arrs']):
-            L += stepper_source('Step%s' % arr['name'].upper(), arr)
+            cls = stepper_class(M, ai)
+            if cls not in done:
+                done.add(cls)
+                L += stepper_source(cls, arr)
     for i in range(M['ne']):
         L += equation_source(i, True)
         L += equation_source(i, False)
@@ -270,6 +283,40 @@ def apply_mutation(mutate):
                     break
             return '\n'.join(lines) + '\n'
         H_.IntegratorCythonHelper.get_timestep_code = get_timestep_code
+    elif mutate == 'sharestepper':
+        # later arrays of a stepper class get the first array's compiled
+        # stepper (its parameters)
+        def get_stepper_init(self):
+            first, lines = {}, []
+            for dest, stepper in self.object.steppers.items():
+                cls = stepper.__class__.__name__
+                src = first.setdefault(cls, dest)
+                lines.append('self.%s_stepper = %s(**steppers["%s"].__dict__)'
+                             % (dest, cls, src))
+            return '\n'.join(lines)
+        H_.IntegratorCythonHelper.get_stepper_init = get_stepper_init
+    elif mutate == 'lazyrefresh':
+        # refresh only if step() started or update_domain() ran since the
+        # last refresh
+        o_step, o_dom = Integrator.step, Integrator.update_domain
+
+        def step(self, time, dt):
+            self._stale = True
+            o_step(self, time, dt)
+
+        def update_domain(self):
+            o_dom(self)
+            self._stale = True
+
+        def compute_accelerations(self, index=0, update_nnps=True):
+            if update_nnps and self._stale:
+                self._stale = False
+                self.nnps.update()
+            c = self.c_integrator
+            self.acceleration_evals[index].compute(c.t, c.dt)
+        Integrator.step = step
+        Integrator.update_domain = update_domain
+        Integrator.compute_accelerations = compute_accelerations
     elif mutate == 'norefresh':
         def compute_accelerations(self, index=0, update_nnps=True):
             c = self.c_integrator
@@ -281,6 +328,35 @@ def apply_mutation(mutate):
 
 class Uncovered(Exception):
     pass
+
+
+def tree_hash(root):
+    """hash of every .py / .mako below <root>/pysph/sph and /base (what the
+    code generator reads).  All checks share one synchronised copy of the
+    tree under test: if another run re-synchronised it to a different tree
+    while this driver was working, the traces say nothing about the tree
+    this check was asked to decide."""
+    import hashlib
+    h = hashlib.sha256()
+    for sub in ('sph', 'base'):
+        top = os.path.join(root, 'pysph', sub)
+        for d, dn, fn in sorted(os.walk(top)):
+            dn[:] = sorted(x for x in dn if x != '__pycache__')
+            for f in sorted(fn):
+                if f.endswith(('.py', '.mako')):
+                    p = os.path.join(d, f)
+                    h.update(os.path.relpath(p, root).encode())
+                    try:
+                        with open(p, 'rb') as fp:
+                            h.update(hashlib.sha256(fp.read()).digest())
+                    except OSError:
+                        h.update(b'?')
+    return h.hexdigest()[:20]
+
+
+def source_ok():
+    want = os.environ.get('C04_TREE_HASH')
+    return (not want) or tree_hash(os.environ['VERIF_SRC']) == want
 
 
 class Runtime(object):
@@ -323,8 +399,7 @@ class Runtime(object):
             else:
                 pa.add_constant('elog', np.zeros(4 * CAP))
                 pa.add_constant('ecnt', [0.0])
-                st = getattr(G, 'Step%s' % arr['name'].upper())(
-                    k=float(arr['k0']))
+                st = getattr(G, stepper_class(M, ai))(k=float(arr['k0']))
             self.arrays.append(pa)
             self.stepper_objs.append(st)
         if M['kind'] == 'gen':
@@ -419,7 +494,9 @@ class Runtime(object):
     def x0(self, ai, p, ghost):
         if ai == 0:
             return 2.0 if ghost else float(p)
-        return 6.0 if ghost else float(2 * p + 3)
+        if ai == 1:
+            return 6.0 if ghost else float(2 * p + 3)
+        return 10.0 if ghost else float(8 + p)
 
     def fill(self, case):
         rng = np.random.RandomState(case.get('seed', 0) + 7)
@@ -567,6 +644,10 @@ def main():
     job = json.load(open(sys.argv[1]))
     mutate = os.environ.get('C04_MUTATE') or None
     out = open(sys.argv[2], 'w')
+    if not source_ok():
+        out.write(json.dumps(dict(stale_source=True)) + '\n')
+        out.close()
+        sys.exit(0)
     try:
         rt = Runtime(job['module'], mutate)
     except Uncovered as ex:
@@ -587,6 +668,8 @@ def main():
             tr = dict(id=case['id'], skipped=str(ex))
         out.write(json.dumps(tr) + '\n')
         out.flush()
+    # still the tree we were asked about?
+    out.write(json.dumps(dict(end=True, source_ok=source_ok())) + '\n')
     out.close()
 
 
